@@ -143,6 +143,18 @@ def _impl_aut(case):
             col = est.node_colors
             rounds.append([col[n] for n in G.nodes()])
         out.append([rounds, [sorted(o) for o in est.orbits], sorted(est.anchor_component)])
+    return [out, True, _impl_vf2(G, A)]
+
+
+def _impl_vf2(G, A):
+    """The VF2 enumerations the analysis consumes (Automorphism._make_matcher(sub).isomorphisms_iter(), one per component in
+    component order), each as a set of maps given as sets of (node, image) items - only when the reported count is <= 200."""
+    if A.n_automorphisms > 200:
+        return []
+    out = []
+    for comp in A.components:
+        sub = G.subgraph(comp).copy()
+        out.append(S([S([[u, v] for u, v in sigma.items()]) for sigma in A._make_matcher(sub).isomorphisms_iter()]))
     return out
 
 
@@ -271,7 +283,7 @@ def impl(case):
     premise `wf` of the theorems, computed by the model function wfb on the encoded graph)."""
     k = case["kind"]
     if k == "aut":
-        return [_impl_aut(case), True]
+        return _impl_aut(case)
     if k == "dedup":
         return [_impl_dedup(case), True, True]
     if k == "prune":
